@@ -122,16 +122,16 @@ impl Masker for TreeSitterMasker {
 fn byte_spans_to_char_spans(byte_spans: &mut Vec<Span>, source: &str) {
     byte_spans.sort_by_key(|s| s.start);
 
-    let cloned = byte_spans.clone();
-
-    let mut i: usize = 0;
+    // Compare with the last span that was kept, not with the previous one: several spans can
+    // lie inside the same earlier span (comments nested in a comment).
+    let mut last_kept: Option<Span> = None;
     byte_spans.retain(|cur| {
-        i += 1;
-        if let Some(prev) = cloned.get(i.wrapping_sub(2)) {
-            !cur.overlaps_with(*prev)
-        } else {
-            true
+        if last_kept.is_some_and(|kept| cur.overlaps_with(kept)) {
+            return false;
         }
+
+        last_kept = Some(*cur);
+        true
     });
 
     let mut last_byte_pos = 0;
